@@ -559,3 +559,87 @@ func init() {
 		r.Outside = append(r.Outside, "clause (b) of the property in full generality - unknown keyword spellings through encoding/json's case-insensitive field matching - is inside encoding/json and is not encoded; it is covered only by the concrete kernel of known case variants (reported as a known finding if present) and the native decoration scaffold; unreferenced $defs entries are covered by the skeleton families (ref skeletons carry unused definitions)")
 	}
 }
+
+func init() {
+	Checks["C05"] = func(cc *CheckCtx, r *Report) {
+		var cases []*EquivCase
+		// (d) documents of the C01/C02 families
+		ts := TmplSpec{Depth: 2, MaxLen: 2, MaxKeys: 3}
+		docs := append(FamilySingle(ts), FamilyDraft7(ts, false)...)
+		docs = append(docs, FamilyNest(ts, false)...)
+		if cc.Thorough() {
+			docs = append(docs, FamilyPair(ts, true)...)
+		}
+		for _, sk := range docs {
+			if sk.Universe != nil {
+				continue
+			}
+			tm := *sk.Tm
+			if !cc.Thorough() {
+				tm.Depth, tm.MaxLen = 1, 2
+			}
+			cases = append(cases, &EquivCase{Name: "F-roundtrip/" + sk.Name, Doc: sk.Doc, Draft: sk.Draft, Tm: &tm})
+		}
+		// (d') Go-constructed schemas
+		for _, c := range GoSchemaFamily() {
+			if !cc.Thorough() {
+				c.Tm = &sx.Tmpl{Depth: 1, MaxLen: 2, Keys: []string{"a", "b", "zz"}}
+			}
+			cases = append(cases, c)
+		}
+		skels := make([]*Skeleton, len(cases))
+		byName := map[string]*EquivCase{}
+		for i, c := range cases {
+			fam := "F-roundtrip"
+			if c.S != nil {
+				fam = "F-goschema"
+			}
+			skels[i] = &Skeleton{Name: c.Name, Family: fam}
+			byName[c.Name] = c
+		}
+		// kernels (a) and (b)
+		type kern struct{ run func(w *Worker) *SkelResult }
+		kernels := map[string]kern{}
+		addK := func(name string, f func(w *Worker) *SkelResult) {
+			kernels[name] = kern{f}
+			skels = append(skels, &Skeleton{Name: name, Family: "kernel"})
+		}
+		addK("kernel/integer.dot", func(w *Worker) *SkelResult { return w.RunIntegerKernel(true, "C05") })
+		addK("kernel/integer.nodot", func(w *Worker) *SkelResult { return w.RunIntegerKernel(false, "C05") })
+		maxX := 2
+		if cc.Thorough() {
+			maxX = 4
+		}
+		for _, extra := range []bool{false, true} {
+			extra := extra
+			for xl := 0; xl <= maxX; xl++ {
+				xl := xl
+				for yl := 1; yl <= 2; yl++ {
+					yl := yl
+					if !extra && yl > 1 {
+						continue
+					}
+					addK(fmt.Sprintf("kernel/splice.x%d.extra%v.y%d", xl, extra, yl), func(w *Worker) *SkelResult { return w.RunSpliceKernel(xl, "", extra, yl, "C05") })
+				}
+			}
+			addK(fmt.Sprintf("kernel/splice.not.extra%v", extra), func(w *Worker) *SkelResult { return w.RunSpliceKernel(0, `"not":true`, extra, 1, "C05") })
+			addK(fmt.Sprintf("kernel/splice.sym10.extra%v", extra), func(w *Worker) *SkelResult { return w.RunSpliceKernel(10, "", extra, 1, "C05") })
+		}
+		skels, results := RunSkeletons(cc.P, skels, cc.Workers, cc.Timeout, func(w *Worker, sk *Skeleton) *SkelResult {
+			if k, ok := kernels[sk.Name]; ok {
+				return k.run(w)
+			}
+			return w.RunEquivCase(byName[sk.Name], "C05")
+		})
+		for i, s := range results {
+			for j := range s.Findings {
+				s.Findings[j].Class = ClassifyFinding(s.Findings[j])
+			}
+			r.AddSkel(skels[i], s)
+		}
+		r.Bounds = append(r.Bounds, boundsValidate...)
+		r.Bounds = append(r.Bounds, "behavioural equivalence: for each schema (documents of the F-single / F-draft7 / F-nest families; Go-constructed Schema values with each exported field nil / empty-but-present / null constant / one element / nested, alone, paired with five companions, and nested) S' = Unmarshal(Marshal(S)) is computed natively, both are resolved and imported, and the real Validate runs on both with one symbolic instance T(2,2,3) per path: the two verdicts must coincide on every path; scaffold (native, per schema): the second marshal is byte-identical, Resolve agrees")
+		r.Bounds = append(r.Bounds, "kernel (a) integer.UnmarshalJSON from its real SSA with encoding/json's number parsing as a contract stub (arbitrary finite float64 incl. 2^31/2^63 boundaries, arbitrary int64, arbitrary parse error): succeeds and stores v exactly when the literal denotes an integer v within int32", "kernel (b) Schema.MarshalJSON from its real SSA with json.Marshal as a contract stub: struct bytes {X}, map bytes {Y}, X and Y arbitrary printable byte strings (|X| <= 2 (4 thorough), and |X| = 10 to cover the spelling \"not\":true): result is {X,Y} / {X} / {Y}, with {} folded to true and {\"not\":true} to false")
+		r.Outside = append(r.Outside, "field-by-field population of all Schema fields through encoding/json itself (its body is not encoded): keyword survival and Extra are observed only through byte-identity of the second marshal and through validation behaviour")
+	}
+}
